@@ -401,26 +401,40 @@ func runC20(t *testing.T, sci interface{}) *Outcome {
 				admin := pairings[op.Arg%len(pairings)]
 				nctl++
 				added := ctl{id: fmt.Sprintf("controller-%d", nctl), kp: w.Keypair()}
-				known := append([]ctl{added}, pairings...)
+				nctl++
+				added2 := ctl{id: fmt.Sprintf("controller-%d", nctl), kp: w.Keypair()}
+				known := append([]ctl{added, added2}, pairings...)
+				bothAdd := op.Arg%3 == 2 // variant: both connections add a controller (two writers of the store)
+				ack1, ack2 := false, false
 				d1, d2 := false, false
 				o.Stats["fault.concurrent_pairing_changes"]++
-				pairingsReq := func(cl *ref.Client, method byte, c ctl) {
+				pairingsReq := func(cl *ref.Client, method byte, c ctl) bool {
 					items := []ref.TLV{{Tag: ref.TagState, Val: []byte{1}}, {Tag: ref.TagMethod, Val: []byte{method}}, {Tag: ref.TagIdentifier, Val: []byte(c.id)}}
 					if method == 3 {
 						items = append(items, ref.TLV{Tag: ref.TagPublicKey, Val: c.kp.Pub}, ref.TLV{Tag: ref.TagPermission, Val: []byte{1}})
 					}
-					cl.Do("POST", "/pairings", ref.CTypeTLV, ref.TLVEncode(items))
+					m, err := cl.Do("POST", "/pairings", ref.CTypeTLV, ref.TLVEncode(items))
+					if err != nil || m.Status != 200 {
+						return false
+					}
+					t, _, err := ref.TLVDecode(m.Body)
+					return err == nil && len(t[ref.TagError]) == 0
 				}
 				s.Go("admin", func() {
 					defer func() { d1 = true }()
 					if cl, _, err := w.verified("admin", admin.id, admin.kp); err == nil {
-						pairingsReq(cl, 3, added)
+						ack1 = pairingsReq(cl, 3, added)
 						cl.Conn.Close()
 					}
 				})
 				s.Go("admin2", func() {
 					defer func() { d2 = true }()
 					if cl, _, err := w.verified("admin2", admin.id, admin.kp); err == nil {
+						if bothAdd {
+							ack2 = pairingsReq(cl, 3, added2)
+							cl.Conn.Close()
+							return
+						}
 						if op.Arg%4 < 2 {
 							// the interesting order: the removals start when the new pairing has just been stored
 							// (the first connection is then somewhere between storing it and answering)
@@ -470,6 +484,19 @@ func runC20(t *testing.T, sci interface{}) *Outcome {
 					}
 					if len(es) != len(now)+1 {
 						violate("pairing-count", "%s: %d entities are stored, %d of them are controllers somebody added", when, len(es), len(now))
+					}
+					if bothAdd {
+						has := func(c ctl) bool {
+							for _, n := range now {
+								if n.id == c.id {
+									return true
+								}
+							}
+							return false
+						}
+						if (ack1 && !has(added)) || (ack2 && !has(added2)) {
+							violate("pairing-lost", "%s: two connections added a controller each at the same time and both were acknowledged (%v, %v), but the store holds %d controllers", when, ack1, ack2, len(now))
+						}
 					}
 					pairings = now
 					checkTXT(when + " after both admin connections finished")
